@@ -10,6 +10,35 @@ EXPECTED = ["keynizk", "keyint", "keypc", "mask", "remask", "decrypt", "or", "ma
             "groth_int", "groth_ni", "hoogh_int", "hoogh_ni", "pedersen", "qr_cutchoose", "qr_cutchoose_cyc", "qr_maskcard", "qr_cardsecret",
             "rabinkey"]
 
+def par_correspond(res, out, drv, n=14):
+    """vpl.correspond, with the records spread over n driver processes (the extracted model does 256-bit
+    exponentiations in Coq's binary integers)"""
+    recs = [l for l in out.split("\n") if l.startswith("REC ")]
+    chunks = [recs[i::n] for i in range(n)]
+    chunks = [c for c in chunks if c]
+    def one(c):
+        return c, vpl.run_driver(drv, "\n".join(c) + "\n")
+    with ThreadPoolExecutor(n) as ex:
+        outs = list(ex.map(one, chunks))
+    mism = []
+    for c, (rc, o, e) in outs:
+        mm = [l for l in o.split("\n") if l.startswith("MISMATCH ")]
+        nok = sum(1 for l in o.split("\n") if l.startswith("OK"))
+        if rc != 0 or nok + len(mm) != len(c):
+            mm.append("MISMATCH driver-failure rc=%d ok=%d mism=%d recs=%d %s" % (rc, nok, len(mm), len(c), e[-500:]))
+        mism += mm
+    res.cov["evaluations"] += len(recs)
+    res.cov["distinct_nontrivial"] += len(set(recs))
+    res.cov["disagreements"] += len(mism)
+    d = res.cov.setdefault("record_kinds", {})
+    for l in recs:
+        k = l.split()[1]
+        d[k] = d.get(k, 0) + 1
+    step = max(1, len(recs) // 6)
+    for l in recs[::step][:6]:
+        res.cov["samples"].append(l[:400])
+    return mism
+
 def run(res, tier, seed, replay):
     res.cov["rule"] = ("grid: for every proof system an accepted transcript of the honest prover is produced in-process (interactive ones with "
                        "a recorded verifier coin stream), then every token position is replaced by every entry of the fixed catalogue (+1, other "
@@ -85,7 +114,7 @@ def run(res, tier, seed, replay):
     for g, s, out in allrecs:
         if "REC " not in out:
             continue
-        mism, props = vpl.correspond(res, "C05", out, drv)
+        mism = par_correspond(res, out, drv)
         for m in mism[:10]:
             mm = m.split(" :: ", 1)
             rec = mm[1] if len(mm) > 1 else ""
